@@ -39,6 +39,7 @@ def model_kinds():
 
 
 DISCRETE = ("BH", "DT")
+BIG_BINS = False  # set by the harness in the thorough tier
 DINUC = "DINUC"  # not in available_models(): built from substitution_model.TimeReversibleDinucleotide
 
 
@@ -234,7 +235,12 @@ def rand_problem(rng, name, ntips=None, ncols=None, bins=None, new_type=None, sc
         rules=[], bins=1, model_kw={},
     )
     if bins is None:
-        bins = rng.choice([1, 1, 1, 2, 3, 4]) if name not in DISCRETE else 1
+        if name in DISCRETE:
+            bins = 1
+        elif kind in ("codon", "protein") and not BIG_BINS:
+            bins = 1  # a binned variant is a new model object (3-9 s to construct for codon models): thorough tier only
+        else:
+            bins = rng.choice([1, 1, 1, 2, 3, 4])
     if bins > 1 and name not in DISCRETE:
         spec["bins"] = bins
         spec["model_kw"] = dict(ordered_param="rate", distribution=rng.choice(["gamma", "free"]))
@@ -250,11 +256,15 @@ def rand_rules(rng, lf, spec):
     edges = tree_edges(spec["tree"])
     special = {"mprobs", "length", "bprobs", "rate", "psubs", "dpsubs"}
     names = [p for p in lf.get_param_names() if p not in special and not p.endswith("_shape")]
+    big = spec["kind"] in ("codon", "protein")
+    nscoped = 0
     for p in names:
         hi = 3.0 if p == "omega" else 8.0
         rules.append(dict(par_name=p, init=round(math.exp(rng.uniform(math.log(0.08), math.log(hi))), 6)))
-        if spec["scoped"] and rng.random() < 0.6 and len(edges) > 1:
-            for e in rng.sample(edges, rng.randint(1, len(edges) - 1)):
+        if spec["scoped"] and rng.random() < 0.6 and len(edges) > 1 and not (big and nscoped >= 2):
+            nscoped += 1
+            # (re-scoping a parameter is slow for the parameter-rich codon models: at most 2 parameters x 2 edges there)
+            for e in rng.sample(edges, rng.randint(1, min(2, len(edges) - 1) if big else len(edges) - 1)):
                 rules.append(dict(par_name=p, edge=e, init=round(math.exp(rng.uniform(math.log(0.08), math.log(hi))), 6)))
     if spec["bins"] > 1:
         k = spec["bins"]
